@@ -765,9 +765,17 @@ func genRT(g *lp.Gen) {
 			} else {
 				sp = fmt.Sprintf("=%d:%02x", ln, g.PickInt('a', ' ', 'z'))
 			}
-			g.P("W %s text %s", side, sp)
+			if comp && g.Chance(1, 3) {
+				g.P("I %s text %s %s", side, sp, g.Pick("i", "i", "d"))
+			} else {
+				g.P("W %s text %s", side, sp)
+			}
 		case 3, 4, 5, 6:
-			g.P("W %s binary %s", side, sp)
+			if comp && g.Chance(1, 3) { // a second pair of conns gets its turn inside this message's inflate / deflate
+				g.P("I %s binary %s %s", side, sp, g.Pick("i", "i", "d"))
+			} else {
+				g.P("W %s binary %s", side, sp)
+			}
 		case 7:
 			g.P("W %s ping %s", side, specOf(randBytes(g, g.PickInt(0, 1, 5, 124, 125, 125, 126))))
 		case 8:
